@@ -200,7 +200,108 @@ def all_obligations():
          functions=['xwrite'], enforce='xwrite', replace=['write'], loop_contracts=True, flags=['--unwind', '20'],
          expect=[r'xwrite\.postcondition', r'write\.precondition', 'loop_invariant_step', 'loop_decreases'],
          assumed=POSIX_RW))
-    A(Ob(name='process.work', props=['C19', 'C07', 'C09', 'C03', 'C18'], kind='proof', harness='h_process.c', entry='h_work',
+    # ---------------- compress.c scheduler monitor
+    MON = ['monitor model: sched_lock() = havoc of all scheduler-protected state + assume I_c; sched_unlock()/task exit = assert I_c with the resources the SPEC '
+           'declares held at that point (Owicki-Gries with ghost ownership counters)',
+           'up_heap/down_heap replaced by their contracts (old head handed out at root[size]; capacity asserted at every enqueue)',
+           'collect/encode/transmit/encoder_init: assumed codec contracts (arbitrary results)', 'xmalloc never fails (failure path is fail(), _Noreturn)',
+           'queued pointers refer to heap blocks disjoint from scheduler state', 'input-slot token conservation across the source monitor (reader holds one slot per chunk)']
+    CT = [('do_collect', 'h_do_collect', ['C11', 'C03', 'C01', 'C04', 'C08', 'C12'], 'default-mode collector: unit/input accounting, position chaining pos/next, remainder re-queued at (major, minor+1), fresh encoder level*100000'),
+          ('do_collect_seq', 'h_do_collect_seq', ['C11', 'C03', 'C01', 'C04', 'C08', 'C12'], '--sequential collector: single collector via collect token, unfinished block carried across chunks, accounting and chaining'),
+          ('do_transmit', 'h_do_transmit', ['C11', 'C01', 'C08', 'C12'], 'transmit: takes a slot, returns the unit, hands the block to reord_q'),
+          ('do_reorder', 'h_do_reorder', ['C11', 'C03', 'C01', 'C02', 'C08', 'C12'], 'reorder: only the block whose pos == order reaches the writer, whole; order = its next; combined CRC recurrence'),
+          ('on_input_avail', 'h_on_input_avail', ['C11', 'C03', 'C12', 'C08'], 'reader callback: chunk n queued at position (n,0)'),
+          ('on_write_complete', 'h_on_write_complete', ['C11', 'C12', 'C08'], 'writer callback: slot returned inside the monitor'),
+          ('write_header', 'h_write_header', ['C02'], 'stream header bytes'), ('write_trailer', 'h_write_trailer', ['C02'], 'stream trailer bytes, CRC big-endian'),
+          ('init', 'h_init', ['C18', 'C11', 'C02'], 'per-operand canonical start state and queue capacities'),
+          ('terminal', 'h_terminal', ['C18', 'C11'], 'I_c and can_terminate() imply the terminal predicate'),
+          ('guards', 'h_guards', ['C11', 'C03'], 'task guards: safety direction and documented reservation rules')]
+    for fn, entry, pr, what in CT:
+        A(Ob(name='compress.' + fn, props=pr, kind='proof', harness='h_compress.c', entry=entry, what=what,
+             functions=[fn] if fn not in ('terminal', 'guards') else ['can_collect', 'can_collect_seq', 'can_transmit', 'can_reorder', 'can_terminate'],
+             flags=['--unwind', '18', '--unwinding-assertions'], assumed=MON, replayable=False,
+             expect=(['monitor invariant I_c holds at task exit'] if fn.startswith('do_') else [])))
+    # ---------------- main.c
+    FS = ['POSIX stubs (lstat/open/fstat/close/unlink/fchown/fchmod/futimens) return every outcome; O_EXCL semantics assumed',
+          'stdio stubs (fprintf/vfprintf/fflush) return any value', 'bailout()/_exit() are _Noreturn (record + assume(0))',
+          'string functions are plain-loop stubs']
+    NB = 'operand names up to 7 characters (covers every suffix incl. whole-name-is-suffix)'
+    A(Ob(name='main.suffix_compress', props=['C17'], kind='bounded', bound=NB, harness='h_main.c', entry='h_suffix_compress',
+         what='suffix_xform(name, 0) is true exactly for names ending in .bz2 .tbz .tbz2 .tz2 (reference written from the man page)',
+         functions=['suffix_xform'], flags=['--unwind', '14', '--unwinding-assertions'], expect=['suffix_xform\\(name,0\\): true exactly'],
+         replayable=True, assumed=FS))
+    A(Ob(name='main.suffix_decompress', props=['C17'], kind='bounded', bound=NB, harness='h_main.c', entry='h_suffix_decompress',
+         what='suffix_xform(name, &out) yields the documented decompressed name in a buffer of exactly length+1 bytes',
+         functions=['suffix_xform'], flags=['--unwind', '14', '--unwinding-assertions'], expect=['decompressed name follows the documented'],
+         replayable=True, assumed=FS))
+    A(Ob(name='main.cleanup', props=['C16', 'C07'], kind='proof', harness='h_main.c', entry='h_cleanup',
+         what='cleanup(): from any state satisfying J the partial output (if any) is unlinked, the tracked path cleared, nothing else touched',
+         functions=['cleanup'], flags=['--unwind', '14', '--unwinding-assertions'], expect=['cleanup\\(\\): no partial output file remains'], assumed=FS))
+    A(Ob(name='main.input_init', props=['C17', 'C16'], kind='bounded', bound=NB, harness='h_main.c', entry='h_input_init',
+         what='input_init(): documented admission rules (lstat failure / not regular / >1 link without -k / compressed suffix when compressing -> '
+              'skipped with warning and never opened); admitted operand opened once; no file-system effect',
+         functions=['input_init', 'suffix_xform', 'warn', 'warnx'], flags=['--unwind', '14', '--unwinding-assertions'],
+         expect=['compressing: an operand with a compressed suffix', 'more than one link is skipped', 'not a regular file is skipped'], assumed=FS))
+    A(Ob(name='main.input_init_stdin', props=['C17'], kind='proof', harness='h_main.c', entry='h_input_init_stdin',
+         what='input_init(NULL): standard input', functions=['input_init'], flags=['--unwind', '14', '--unwinding-assertions'],
+         expect=['no operand: standard input'], assumed=FS))
+    A(Ob(name='main.output_init', props=['C17', 'C16'], kind='bounded', bound=NB, harness='h_main.c', entry='h_output_init',
+         what='output_init(): O_WRONLY|O_CREAT|O_EXCL with mode st_mode&0600 while signals are blocked; unlink(existing) only under -f; name by the '
+              'documented rules; J (tracked path <=> partial output) holds on every return; -c/-t create nothing',
+         functions=['output_init', 'suffix_xform', 'xmalloc'], flags=['--unwind', '14', '--unwinding-assertions'],
+         expect=['output name follows the documented suffix rules', 'output is created exclusively', 'output_init: J holds'], assumed=FS))
+    A(Ob(name='main.output_regf_uninit', props=['C17', 'C16'], kind='proof', harness='h_main.c', entry='h_output_regf_uninit',
+         what='output_regf_uninit(): fchown -> fchmod(st_mode&0777 iff fchown succeeded) -> futimens({atime,mtime}) -> close; returns only with the '
+              'output closed complete and the path cleared; close failure is fatal with J intact',
+         functions=['output_regf_uninit', 'warnx', 'warn', 'failx'], flags=['--unwind', '14', '--unwinding-assertions'],
+         expect=['output is closed only after ownership', 'permission bits are transferred', 'fatal path: tracked output path'], assumed=FS))
+    A(Ob(name='main.operand_loop', props=['C16', 'C17', 'C18', 'C07'], kind='bounded', bound='<= 2 operands (each with symbolic name <= 7 chars, symbolic stat data, every syscall outcome); ' + NB,
+         harness='h_main.c', entry='h_main',
+         what='main(): per operand cli..sti balanced on every path; work() runs with signals blocked and J; input unlinked only after the output is '
+              'closed complete and only when writing files without -k; every fatal path has J; no option changes between operands; exit status 4 iff warned else 0',
+         functions=['main', 'input_init', 'output_init', 'output_regf_uninit', 'input_oprnd_rm', 'input_uninit', 'suffix_xform', 'warn*/fail* (DEF)', 'log_generic'],
+         flags=['--unwind', '14', '--unwinding-assertions'], timeout=1200,
+         expect=['operand end: input removed only after', 'operand end: signals are unblocked', 'normal exit status is 4 iff', 'input operand is removed only after its output',
+                 'fatal path: tracked output path', 'operand end: no option changed'],
+         canaries=['CANARY exit status 4', 'CANARY exit status 0'],
+         assumed=FS + ['opts_setup(): assumed contract (any options, 0..2 operands); work(): stub asserting its call-site obligations']))
+    A(Ob(name='main.reporters', props=['C07', 'C21', 'C17'], kind='proof', harness='h_main.c', entry='h_reporters',
+         what='DEF reporters: fail/failf/failx/failfx always reach bailout() and never return; a diagnostic is printed unless the errno argument is '
+              'EPIPE or EFBIG (then none); warn* set the warning flag, info* do not',
+         functions=['fail', 'failf', 'failx', 'failfx', 'warn', 'warnx', 'warnfx', 'info', 'infox', 'log_generic'],
+         flags=['--unwind', '6', '--unwinding-assertions'],
+         expect=['a fatal reporter prints a diagnostic unless', 'EPIPE/EFBIG diagnostics are suppressed', 'failfx never returns'],
+         canaries=['CANARY fatal reporter reaches bailout'], replayable=False, assumed=FS))
+    A(Ob(name='main.opts_setup', props=['C22'], kind='bounded',
+         bound='<= 1 token in each of LBZIP2/BZIP2/BZIP and <= 2 command-line tokens, each a symbolic choice from 35 documented spellings '
+               '(short, clustered, long, ignored options, "--", operands); 7 invocation names; options with arguments (-n/-m) and -h/-V excluded',
+         harness='h_main.c', entry='h_opts_setup',
+         what='opts_setup() result (decompress, outmode, level, -f -k -u, operand list) equals a model of the documented rules: invocation-name '
+              'defaults, LBZIP2 then BZIP2 then BZIP tokens before the command line, last of -d/-z wins and cancels -t, -t implies -d, -c/-t conflict fails',
+         functions=['opts_setup', 'opts_outmode', 'opts_decompress'], flags=['--unwind', '20', '--unwinding-assertions'], timeout=1500,
+         expect=['mode: invocation name', 'operands: exactly the non-option tokens', 'opts_setup fails only where'], replayable=True,
+         assumed=FS + ['getenv/strtok: harness stubs (one separator-free token per variable)', 'sysconf/isatty: arbitrary results']))
+    # ---------------- signals.c
+    SG = ['POSIX signal calls (pthread_sigmask/sigaction/sigpending/kill/sigsuspend) replaced by a ghost signal-state model; '
+          'signal delivery is atomic with respect to that state', 'cleanup() stub (proved separately in main.cleanup)', '_exit/pthread_exit are _Noreturn']
+    A(Ob(name='signals.bailout', props=['C07', 'C16', 'C21'], kind='proof', harness='h_signals.c', entry='h_bailout',
+         what='bailout(): main thread -> cleanup() strictly before SIGPIPE/SIGXFSZ are unblocked, then _exit(1); other thread -> promote every pending '
+              'SIGPIPE/SIGXFSZ, then SIGUSR1, then pthread_exit, never cleanup; never returns; never _exit(0)',
+         functions=['bailout', 'promote', 'xraise', 'xmask', 'xpending', 'xmember', 'xempty'], flags=['--unwind', '6', '--unwinding-assertions'],
+         expect=['unblocked in the main thread only after cleanup', 'SIGUSR1 is sent only after every', 'abnormal termination exits with status 1'],
+         canaries=['CANARY _exit reached'], assumed=SG))
+    A(Ob(name='signals.halt', props=['C16', 'C07', 'C21'], kind='proof', harness='h_signals.c', entry='h_halt',
+         what='halt(): waits with the mask saved by cli(); SIGUSR2 -> returns; SIGUSR1 -> bailout(); SIGINT/SIGTERM -> cleanup(), default action, '
+              're-raise, unblock, _exit(1)',
+         functions=['halt', 'terminate', 'cli', 'signal_handler', 'bailout', 'xaction'], flags=['--unwind', '6', '--unwinding-assertions'],
+         expect=['re-raised only after cleanup', 'halt\\(\\) returns normally only for SIGUSR2', 'the suspend mask lets'], canaries=['CANARY _exit reached'], assumed=SG))
+    A(Ob(name='signals.cli_sti', props=['C16', 'C18'], kind='proof', harness='h_signals.c', entry='h_cli_sti',
+         what='cli() blocks the four handled signals saving the previous mask and installs the handler; sti() restores defaults and the mask',
+         functions=['cli', 'sti', 'xaction', 'xmask'], flags=['--unwind', '6', '--unwinding-assertions'], expect=['sti\\(\\): mask restored'], assumed=SG))
+    A(Ob(name='signals.setup', props=['C16', 'C21'], kind='proof', harness='h_signals.c', entry='h_setup_signals',
+         what='setup_signals(): handled signals unblocked, SIGPIPE/SIGXFSZ blocked', functions=['setup_signals'],
+         flags=['--unwind', '6', '--unwinding-assertions'], expect=['SIGPIPE and SIGXFSZ blocked'], assumed=SG))
+    A(Ob(name='process.work',props=['C19', 'C07', 'C09', 'C03', 'C18'], kind='proof', harness='h_process.c', entry='h_work',
          what='work(): input starting with BZh1-9 (4 bytes read) always goes to the decompressor with bs100k = digit; anything else is copied '
               '(exactly the 0-4 bytes read are written first, from the header buffer) iff -f and output is stdout, otherwise failf; '
               'set_memory_constraints gives the documented slot counts/granularities; nothing is started twice',
